@@ -172,7 +172,8 @@ func (d *cStateDb) DestroyAccount(addr common.Address) {
 	// remove auth account
 	acc := d.accountKeeper.GetAccount(d.currentCtx, addr.Bytes())
 	if acc != nil {
-		destroyable, protectedReason := evmutils.CheckIfAccountIsSuitableForDestroying(acc)
+		// vesting expiry must be decided by the block time, not by the wall clock of the node
+		destroyable, protectedReason := evmutils.CheckIfAccountIsSuitableForDestroyingAt(acc, d.currentCtx.BlockTime())
 		if !destroyable {
 			panic(
 				sdkerrors.ErrLogic.Wrapf(
